@@ -324,7 +324,7 @@ def eds_model(rng, node_id=None, n_objects=14, dcf=False, index_ranges=((0x1002,
                 v.value_rel = rng.choice([0x280, 0x300, 0x2DE, 0x3ED, 0xD, rng.randint(0, 0x7FF)])
                 v.value = v.value_rel + node_id
         if dt in R.INTEGERS and rng.random() < 0.3:
-            v.factor = rng.choice([0.5, 2.0, 0.001, 10.0, -1.5])
+            v.factor = rng.choice([0.5, 2.0, 0.001, 10.0, -1.5, 1 / 1024, 360 / 65536, 1234567.5, 3.3 / 4095, 1e-9, 16777217.0])
             v.unit = rng.choice(["mm", "rpm", "A", "deg C", ""])
         if rng.random() < 0.3:
             v.description = "Description of " + v.name
